@@ -360,6 +360,21 @@ def run_case(scratch, case):
         daemon_mod.Daemon.id_counter = itertools.count()
         daemon = Daemon(BitcoinSV, urls, init_retry=init_retry, max_retry=max_retry)
         daemon.session = fake
+        # the operator's `daemon_url` command with a list that is rejected (a URL without
+        # credentials first, or after a valid one): the configuration must stay as it was
+        reconfig = case.get('reconfig') or 0
+        if reconfig:
+            bad = ['http://nocredentials:8332/,http://u:p@other9:8332/',
+                   'http://u:p@other9:8332/,http://nocredentials:8332/',
+                   'http://nocredentials:8332/'][(reconfig - 1) % 3]
+            before = (list(daemon.urls), daemon.url_index)
+            try:
+                daemon.set_url(bad)
+                outcome['reconfig'] = 'accepted'
+            except Exception:
+                outcome['reconfig'] = 'rejected'
+            if (list(daemon.urls), daemon.url_index) != before:
+                outcome['reconfig_changed'] = (before, (list(daemon.urls), daemon.url_index))
         results = [None] * len(calls)
         outcome['failovers'] = []
         real_failover = daemon.failover
@@ -394,6 +409,14 @@ def run_case(scratch, case):
     except (SimDeadlock, SimTimeout, asyncio.TimeoutError) as e:
         return (f'calls did not complete after the faults ended: {type(e).__name__} {e}',
                 'no_completion', info)
+    if outcome.get('reconfig') == 'accepted':
+        return ('set_url accepted a URL list containing a URL without credentials',
+                'reconfig', info)
+    if outcome.get('reconfig_changed'):
+        before, after = outcome['reconfig_changed']
+        return (f'a rejected set_url (daemon_url command) changed the configuration: URLs '
+                f'{[u[u.rindex("@") + 1:] for u in before[0]]} -> '
+                f'{[u[u.rindex("@") + 1:] for u in after[0]]}'), 'reconfig', info
     attempts = fake.attempts
     info['attempts'] = len(attempts)
     n_faults_hit = sum(1 for a in attempts if a[2])
@@ -544,13 +567,14 @@ def run_exhaustive(ctx):
 
 
 CASE = st.builds(
-    lambda urls, retry, calls, faults, chunk: {'urls': urls, 'retry': retry, 'calls': calls,
-                                               'faults': faults, 'chunk': chunk},
+    lambda urls, retry, calls, faults, chunk, reconfig: {
+        'urls': urls, 'retry': retry, 'calls': calls, 'faults': faults, 'chunk': chunk,
+        'reconfig': reconfig},
     st.integers(1, 3), st.integers(0, len(RETRY_SETTINGS) - 1),
     st.lists(st.tuples(st.integers(0, len(CALL_KINDS) - 1), st.integers(0, 50)).map(list),
              min_size=1, max_size=4),
     st.lists(st.integers(0, N_FAULTS) | st.integers(1, N_FAULTS), max_size=14),
-    st.sampled_from([1, 7, 64, 300, 5000]))
+    st.sampled_from([1, 7, 64, 300, 5000]), st.sampled_from([0, 0, 0, 1, 2, 3]))
 
 
 def drawn_body(ctx):
